@@ -11,7 +11,7 @@ theorem load_eq_gen (conv : Conv) (env : Env) (pkgs : Str → Pkg) (s : Schema) 
         (if overrides.isEmpty then pure Option.none else (mkBag conv s.top overrides).map some) >>= fun bag =>
           parseLines 64 env loaderCtx (activeOf url) url lines 0
             { ctx := { schema := s, privateSchema := false, handlers := [], stack := [newMatcher s.top Option.none bag],
-                       pkgs := pkgs, conv := conv }, stack := [], defs := [] } >>= loadFin conv s) := by
+                       pkgs := pkgs, conv := conv, bagSchema := bag.map fun _ => s }, stack := [], defs := [] } >>= loadFin conv s) := by
   unfold load
   congr 1
   funext overrides
